@@ -1,12 +1,15 @@
 #!/bin/sh
-# seed_matrix.sh <seed-id> <Cnn> [<Cnn> ...] : apply /verif/seeded/<seed-id>/patch.diff to /repo, run the quick checks, undo.  Prints detected / missed.
+# seed_matrix.sh <seed-id> <Cnn> [<Cnn> ...] : run the quick checks against a seeded change applied to a SCRATCH worktree of /repo
+# (never /repo itself); evidence and replays are redirected.  Prints detected / missed.
 ID="$1"; shift
+SCR="$(mktemp -d /tmp/seedone.XXXXXX)"
 cd /verif
-git -C /repo diff --quiet || { echo "/repo is dirty"; exit 2; }
-git -C /repo apply "/verif/seeded/$ID/patch.diff" || exit 2
+git -C /repo worktree add -q --detach "$SCR/wt" HEAD || exit 2
+git -C "$SCR/wt" apply "/verif/seeded/$ID/patch.diff" || { git -C /repo worktree remove --force "$SCR/wt"; rm -rf "$SCR"; exit 2; }
 for P in "$@"; do
-  out="$(./check $P ${TIER:-quick} 2>&1)"; rc=$?
+  out="$(SMOOTHMATH_SRC="$SCR/wt/src" VERIF_EVIDENCE_DIR="$SCR/ev" VERIF_REPLAY_DIR="$SCR/rp" ./check $P ${TIER:-quick} 2>&1)"; rc=$?
   n=$(printf '%s\n' "$out" | grep -c '^VIOLATION')
   printf '%s vs %s: exit=%s violations=%s %s\n' "$ID" "$P" "$rc" "$n" "$(printf '%s\n' "$out" | grep -E '^\[|HARNESS' | tail -1 | cut -c1-160)"
 done
-git -C /repo checkout -- .
+git -C /repo worktree remove --force "$SCR/wt"
+rm -rf "$SCR"
